@@ -371,6 +371,39 @@ int main(int argc, char **argv)
               if (w == 1234 % nw && mode == 0 && ss == 0) r.sample(det + "}");
               delete px;
             }
+          // documented: "the grid definition (min and max values, width) need not be the same [...] or change the colvar boundary
+          // values and widths": the files of the whole word read by a simulation whose bins are twice as wide ([1,2) and [2,3))
+          if (std::string(c.name) == "1d-full1" && L <= 8) {
+            r.count("evaluations");
+            std::string det = std::string("{\"config\":\"") + c.name + "\",\"timing\":\"" + (ss ? "same-step" : "lagged") + "\",\"history\":" + wj +
+                              ",\"segmentation\":\"one simulation with width 0.5; its files read through inputPrefix by one with width 1.0\"";
+            RefABF ref(c);
+            std::string err, pa = "cw" + std::to_string(shard);
+            if (!run_and_write(c, ss, word, pa, ref, err)) r.violation(std::string("C04:error-during-run:") + c.name, det + ",\"error\":\"" + jesc(err.substr(0, 200)) + "\"}");
+            else {
+              vproxy *px = new vproxy(4, ss != 0);
+              place(*px, c, word[0], 0);
+              std::string cc = "colvar {\n name d\n width 1.0\n lowerBoundary 1.0\n upperBoundary 3.0\n distance {\n group1 { atomNumbers 1 }\n group2 { atomNumbers 2 }\n }\n}\n"
+                               "abf {\n name a\n colvars d\n fullSamples 1\n minSamples 0\n inputPrefix " + pa + "\n}\n";
+              if (px->config(cc) != 0) r.violation(std::string("C04:input-files-refused:") + c.name, det + ",\"error\":\"" + jesc(px->errtxt.substr(0, 300)) + "\"}");
+              else {
+                colvarbias_abf *abf = dynamic_cast<colvarbias_abf *>(px->bias("a"));
+                for (int B = 0; B < 2; B++) {
+                  long n = ref.count(2 * B) + ref.count(2 * B + 1);
+                  double sum = 0;
+                  for (int b = 2 * B; b < 2 * B + 2; b++) sum += ref.mean(b)[0] * ref.count(b);
+                  double m = n ? sum / n : 0.0;
+                  std::vector<int> ix{B};
+                  long cnt = (long) abf->samples->value(ix);
+                  double g = abf->gradients->value_output(ix, 0);
+                  if (cnt != n) { r.violation("C04:inputPrefix-onto-a-coarser-grid:count-is-not-the-sum-over-the-merged-bins", det + ",\"bin\":" + std::to_string(B) + ",\"count\":" + std::to_string(cnt) + ",\"expected\":" + std::to_string(n) + "}"); break; }
+                  if (!close_rel(g, -m, std::max(1.0, std::fabs(m)), 1e-9)) { r.violation("C04:inputPrefix-onto-a-coarser-grid:gradient-is-not-the-mean-over-the-merged-samples", det + ",\"bin\":" + std::to_string(B) + ",\"gradient\":" + num(g) + ",\"expected\":" + num(-m) + "}"); break; }
+                }
+                if (!ref.samples.empty()) r.seen("nontrivial", fnv(det));
+              }
+              delete px;
+            }
+          }
           // merging: two independent simulations (letters 0..K and K..L-1, each from scratch) write their files; a third one
           // names both in inputPrefix: it must start from the union of their samples (counts add, gradients are the mean over
           // all samples) and apply the force that follows from it
